@@ -51,4 +51,8 @@ func init() {
 	// ---------------- C19.R12
 	mut("C19", "the range limit is compared against the user's variable", "arc/go/compiler/statement/loop.go",
 		"	limitSym, err := loopScope.Resolve(ctx, \"__for_limit\")", "	limitSym, err := loopScope.Resolve(ctx, endExpr.GetText())", "C19.R12.bound")
+
+	// ---------------- C19.R13
+	mut("C19", "loop variables are not declared as locals", "arc/go/compiler/compiler.go",
+		"			symbol.KindOutput, symbol.KindLoopVariable:", "			symbol.KindOutput:", "C19.R13.locals")
 }
